@@ -48,7 +48,7 @@ CHECKS = {
    note="Trusted: nothing beyond the detectors themselves: the oracle is differential (same detector on the blanked files). Bounded to 3 items from the pool.",
    technique="bounded-exhaustive enumeration of item sequences with a differential (compositionality) oracle"),
  "C03": dict(engine="fsx", ref="7/C03, 9, 10",
-   text="Explicit-state exploration of (directory tree, listing order, pattern list): all trees with <= 4 (quick) / 5 (thorough) entries and depth <= 2 over files with findings for one / two patterns, blank files, finding-free files, ineligible files and same-named files with identical or shifted line sets, x EVERY permutation of EVERY directory's listing (owned through the cfg-guarded read_dir seam) x pattern lists (one, two in both orders, thorough: all), through the real analyze_dir of all three categories; oracle: sorted multiset of (file, line set) per pattern obtained by analysing each eligible file alone. Trees of <= 3 entries are replayed against the unhooked binary on tmpfs with a creation history that yields each root listing order (verified by reading the directory back), the report parsed back and compared.",
+   text="Explicit-state exploration of (directory tree, listing order, pattern list): all trees with <= 4 (quick) / 6 (thorough) entries and depth <= 2 over files with findings for one / two patterns, blank files, finding-free files, ineligible files and same-named files with identical or shifted line sets, x EVERY permutation of EVERY directory's listing (owned through the cfg-guarded read_dir seam) x pattern lists (one, two in both orders, thorough: all), through the real analyze_dir of all three categories; oracle: sorted multiset of (file, line set) per pattern obtained by analysing each eligible file alone. Trees of <= 3 entries are replayed against the unhooked binary on tmpfs with a creation history that yields each root listing order (verified by reading the directory back), the report parsed back and compared.",
    note="Trusted: the seam returns the real entries in the requested order; tmpfs listing order is verified per state, unobtainable orders are counted, not assumed. Bounded by tree size and depth.",
    technique="explicit-state enumeration of environment answers (directory listing orders) and tree shapes against a per-file reference; hook-free replay of states on the real binary"),
  "C11": dict(engine="report", ref="7/C11",
